@@ -162,6 +162,17 @@ def frame_labels(frame):
             toks = {t for c in some for t in c}
             if r['how'] == 'sep' and any(set(t) & set('|,;:/') for t in toks):
                 labs.append('value:other-separator-inside-token')
+            if r['how'] == 'sep' and len(r['sep']) > 1:
+                sep = r['sep']
+                labs.append('sep:multi-character')
+                if sep != sep.strip() and sep.strip():
+                    labs.append('sep:blank-padded-core')
+                    if any(sep.strip() in t for t in toks):
+                        labs.append('value:bare-separator-core-inside-token')
+                if any(f in t for t in toks for f in mg.sep_fragments(sep)):
+                    labs.append('value:separator-fragment-inside-token')
+                if r.get('pad') and any(r['pad']):
+                    labs.append('sep:multi-character:padded-tokens')
             if any(a != b and b.startswith(a) and a for a in list(toks)[:40] for b in list(toks)[:40]):
                 labs.append('value:token-prefix-of-another')
             lab = mg.size_label('tokens-per-cell', max([len(c) for c in some] + [0]))
@@ -175,7 +186,25 @@ def frame_labels(frame):
                 labs.append(lab)
         if st == 'timestamp':
             if r['kind'] == 'str':
-                labs.append(f'timestamp:fmt:{r["fmt"]}:{r["dtype"]}')
+                labs.append(f'timestamp:fmt:{r["fmt"]}' + (f':{r["dtype"]}' if (r['fmt'] or '').count('%') <= 6 and not
+                                                           any(d in (r['fmt'] or '') for d in mg.RICH_DIRECTIVES) else ''))
+                labs.append(f'dtype:timestamp-text:{r["dtype"]}')
+            fmt = (r['fmt'] if r['kind'] == 'str' else r.get('cfgfmt')) or ''
+            for d, lab in (('%I', '12-hour-clock(%I %p)'), ('%y', 'two-digit-year(%y)'), ('%j', 'day-of-year(%j)'),
+                           ('%b', 'month-name(%b)'), ('%B', 'month-name(%B)'), ('%a', 'weekday-name(%a)'),
+                           ('%A', 'weekday-name(%A)'), ('%c', 'locale(%c)'), ('%X', 'locale(%X)'), ('%x', 'locale(%x)'),
+                           ('%U', 'week-number(%U %w)'), ('%W', 'week-number(%W %w)'), ('%V', 'iso-week(%G %V %u)'),
+                           ('%f', 'sub-second(%f)'), ('%z', 'utc-offset(%z)')):
+                if d in fmt:
+                    labs.append('timefmt:' + lab)
+            if fmt and '%' in fmt and '%H' not in fmt and any(d in fmt for d in ('%I', '%X', '%c')):
+                labs.append('timefmt:time-of-day-without-%H')
+                if any(isinstance(c, int) and c % 86400 >= 43200 for c in cells[:500]):
+                    labs.append('timefmt:12-hour-clock:pm-cell')
+            if r['kind'] != 'str' and r.get('cfgfmt'):
+                labs.append('timefmt:configured-for-a-datetime-column(ignored)')
+            if any(isinstance(c, int) and c % 86400 for c in cells[:500]):
+                labs.append('timestamp:not-midnight')
             elif r['kind'] == 'pyobj':
                 labs.append(f'timestamp:object-column-of-{r["pyobj"]}' + (':tz' if r.get('tz') is not None else ''))
             else:
@@ -213,7 +242,12 @@ class C01(core.Check):
     rule = ('abstract frames of 1-12 rows x 1-8 feature columns (+ optional target: numerical / 1-,2-,3+-class '
             'categorical / timestamp) over numerical, categorical (str and int values), multicategorical (sep-joined '
             'with padding / list-, tuple-, set-, ndarray-valued, repeated and empty tokens, tokens containing other columns\' '
-            'separators), sequence_numerical (NaN entries, []), timestamp (1700-2200, 11 explicit formats incl. %f and %z + auto, '
+            'separators; 35% of the delimiter-joined columns use a separator of several characters - a core with blank padding such '
+            'as ", " / " | " / " and ", or "::" / "--" / "<br>" - with tokens built around the bare core and every other proper '
+            'fragment of the separator, all tokens padded alike), sequence_numerical (NaN entries, []), timestamp (1700-2200, 15 '
+            'explicit formats incl. %f and %z + auto, and 27 more using the 12-hour clock %I %p, two-digit years %y, day of year %j, '
+            'month / weekday names %b %B %a %A, week numbers %U %W %G-%V-%u, the locale forms %c %x %X, time before date, undelimited '
+            'fields, with times that are not midnight; a format configured for a column that already holds datetimes, '
             'datetime64[s|ms|us|ns] with sub-second parts, tz-aware datetime64 with fixed offsets, object columns of datetime / '
             'Timestamp, unparseable strings), embedding (width 1-5, list / tuple / float64- / float32-ndarray, missing cells) and '
             'text_/image_embedded (deterministic stub embedder, batch sizes None/1/2/5/17/256); missing rates 0-60% incl. '
@@ -225,7 +259,8 @@ class C01(core.Check):
             'columns, categories, token pool, tokens per cell, cell length, sequence length, embedding width; <= 259 / 4 099 / 65 539), '
             '~7% of the frames hold 2-3 columns with different separators / day-first vs month-first formats drawn from ONE pool of '
             'raw texts, optionally after another dataset (other separators) consumed the same texts earlier in the process; '
-            'second materialize() calls, twin comparison of the input frame, configuration passed as dict in shuffled key order / '
+            'second materialize() calls, twin comparison of the input frame, in-place writes into the tensors of the materialized frame '
+            'followed by a twin comparison of the DataFrame, of the statistics and a conversion of the dataset\'s own frame, configuration passed as dict in shuffled key order / '
             'as one string / with None entries left out, unused DataFrame columns and a split column; ~35% of the frames carry a '
             'non-default index (17 kinds). Rendered to pandas, Dataset(...).materialize(); every cell read through feat_dict, '
             'get_col_feat and y and compared exactly with the Lean model (which receives the abstract frame and the observed '
@@ -314,6 +349,24 @@ class C01(core.Check):
                 side['twin'] = mg.frames_identical(ds.df, mg.render(frame, case.get('labels')))
             except Exception as e:   # noqa
                 side['twin'] = f'comparison raises {type(e).__name__}: {str(e)[:120]}'
+        if frame.get('scribble'):
+            # aliasing: an in-place write into the returned tensors must stay in those tensors - the DataFrame equals an
+            # untouched twin, the statistics are unchanged, converting the dataset's own frame still gives the encoding
+            try:
+                stats0 = mg.canon_stats_full(ds.col_stats)
+                mg.scribble(ds.tensor_frame, frame['scribble'])
+                bad = mg.frames_identical(ds.df, mg.render(frame, case.get('labels')))
+                if bad:
+                    side['scribble'] = f'the DataFrame differs from an untouched twin: {bad}'
+                elif mg.canon_stats_full(ds.col_stats) != stats0:
+                    side['scribble'] = 'dataset.col_stats changed'
+                else:
+                    v = check_cells(frame, mg.canon_tf(ds.convert_to_tensor_frame(ds.df)), out['ok']['stats'],
+                                    'convert(dataset.df) after the write', fitted=True)
+                    if v:
+                        side['scribble'] = v[1]
+            except Exception as e:   # noqa
+                side['scribble'] = f'observation raises {type(e).__name__}: {str(e)[:120]}'
         if not mg.model_feasible(frame):
             # too large for the list-based Lean model: judged by the plain-Python oracle right away, and only a digest
             # of the (large) outcome is kept
@@ -367,6 +420,10 @@ class C01(core.Check):
         if side.get('again'):
             return core.Violation('history/materialize-twice', f'a second materialize() on the same dataset: {side["again"]}',
                                   case, 'the same TensorFrame', side['again'])
+        if side.get('scribble'):
+            return core.Violation('alias/write-into-materialized-frame-leaks', 'after an in-place write into the tensors of '
+                                  f'dataset.tensor_frame: {side["scribble"]}', case, 'DataFrame, statistics and later conversions '
+                                  'unaffected', side['scribble'])
         if side.get('twin'):
             return core.Violation('alias/input-frame-modified', f'materialize() modified the DataFrame it was given: {side["twin"]}',
                                   case, 'an unchanged DataFrame', side['twin'])
